@@ -10,7 +10,7 @@ import gen
 import impl
 from core import Scratch, cN, cbool, clist, cnat, cstr
 
-DOCS = ["1. one\n3.  three\nx  \n", "1. one\n3.  three\n\ty\n", "1. one\n2.  two\n3. three  \n", "# a\n", "#  a\n", "a  \n", "a   \n", "#  a\n\nb   \n", "a\tb\n", "a", "# a\n\n- x\n* y\n", "1. a\n1. b\n3. c\n", "# a\n\n### b\n", "text\n```\ncode\n```\ntext\n",
+DOCS = ["# Title\n\nsome text\n\x0c", "a\n\x0b", "```\nx\n\x0c", "a\n\x0c\x0b", "a\n \x0c", "1. one\n3.  three\nx  \n", "1. one\n3.  three\n\ty\n", "1. one\n2.  two\n3. three  \n", "# a\n", "#  a\n", "a  \n", "a   \n", "#  a\n\nb   \n", "a\tb\n", "a", "# a\n\n- x\n* y\n", "1. a\n1. b\n3. c\n", "# a\n\n### b\n", "text\n```\ncode\n```\ntext\n",
         "a\n\n\n\nb\n", "**a** __b__\n", "- a\n   - b\n", "** a **\n", "---\n\n***\n", "> a\n>  b\n", "10. x\n", "a  \nb\n", "```\nx\n```\n\n~~~\ny\n~~~\n", "", "\n", "# a #\n",
         "\ta\n", "* a\n+ b\n", "#  a  #\n", "a\n# b\n", "[ a ](/u)\n", "` a `\n", "<!-- pyml disable-next-line md019-->\n#  a\n"]
 SCHEMES = {"default": [], "minimal": ["--return-code-scheme", "minimal"]}
@@ -41,7 +41,9 @@ def _fix_run(case):
             open(os.path.join(work, n), "wb").write(t.encode("utf-8"))
             names.append(n)
         # what scan says beforehand (fix-capable rules only are judged later)
-        scode, sout, serr = impl.run_cli(["scan"] + names, cwd=work)
+        # (every file is scanned, also behind one on which the scan fails; a file whose own scan fails is not judged "clean")
+        scode, sout, serr = impl.run_cli(["--continue-on-error", "scan"] + names, cwd=work)
+        sout += "".join(f"\n{n}:0:0: SCANERROR0: \n" for n in names if f"'{n}'" in serr or f"{n}:" in serr)
         import tempfile
         old = tempfile.tempdir
         tempfile.tempdir = tmpd
@@ -205,6 +207,8 @@ def run(ctx):
         # a file whose scan shows no failure from a fix-capable rule is left byte-identical
         for n, t, a in zip(names, ds, after):
             ids = set(re.findall(r"^" + re.escape(n) + r":\d+:\d+: ([A-Z]+\d+):", sout, re.M))
+            if "SCANERROR0" in ids:
+                continue
             if not (ids & fixable_ids()) and a != t:
                 ctx.violation("clean-touched", {"doc": t}, f"the scan shows no failure of a fix-capable rule ({sorted(ids)}) but fix rewrites the file to {a!r}", group="clean-touched")
         # model correspondence from the pass-level debug output
